@@ -202,6 +202,18 @@ def _loads_xml(string):
     return orb
 
 
+def _tle_params(data):
+    """Ephemeris type and classification, whether the orbit comes from a TLE
+    or from an OMM
+    """
+    tle = data._data.get("tle")
+    ephemeris_type = data._data.get("ephemeris_type", data._data.get("type", 0))
+    classification = data._data.get(
+        "classification_type", tle.classification if tle is not None else "U"
+    )
+    return ephemeris_type, classification
+
+
 def _dumps_kvn(data, **kwargs):
 
     header = dump_kvn_header(data, "OMM", version="2.0", **kwargs)
@@ -225,11 +237,11 @@ ARG_OF_PERICENTER    = {omega:8.4f} [deg]
 MEAN_ANOMALY         = {M:8.4f} [deg]
 GM                   = {mu:0.1f} [km**3/s**2]
 
-EPHEMERIS_TYPE       = {tle.tle.type}
-CLASSIFICATION_TYPE  = {tle.tle.classification:}
-NORAD_CAT_ID         = {tle.tle.norad_id}
-ELEMENT_SET_NO       = {tle.tle.element_nb}
-REV_AT_EPOCH         = {tle.tle.revolutions}
+EPHEMERIS_TYPE       = {ephemeris_type}
+CLASSIFICATION_TYPE  = {classification}
+NORAD_CAT_ID         = {tle.norad_id}
+ELEMENT_SET_NO       = {tle.element_nb}
+REV_AT_EPOCH         = {tle.revolutions}
 BSTAR                = {bstar:6.9f} [1/ER]
 MEAN_MOTION_DOT      = {ndot: 10.8f} [rev/day**2]
 MEAN_MOTION_DDOT     = {ndotdot:0.1f} [rev/day**3]
@@ -240,6 +252,8 @@ MEAN_MOTION_DDOT     = {ndotdot:0.1f} [rev/day**3]
         omega=code_unit(data, "omega", "deg"),
         M=code_unit(data, "M", "deg"),
         tle=data,
+        ephemeris_type=_tle_params(data)[0],
+        classification=_tle_params(data)[1],
         bstar=code_unit(data, "bstar", "1/ER"),
         ndot=code_unit(data, "ndot", "rev/day**2") / 2,
         ndotdot=code_unit(data, "ndotdot", "rev/day**3") / 6,
